@@ -575,6 +575,8 @@ let schema_for scheme (name : string) (g1, g2, f) : Codec.schema option =
     if name = "pp" then Some (Artefacts.kzg_universal_params g1 g2)
     else if name = "ck" then Some (Artefacts.marlin_ck g1)
     else if name = "vk" then Some (Artefacts.marlin_vk g1 g2)
+    else if name = "kzgpowers" then Some (Artefacts.kzg_powers g1)
+    else if name = "kzgvk" then Some (Artefacts.kzg_vk g1 g2)
     else if starts "comm" then Some (Artefacts.marlin_commitment g1)
     else if starts "state" then Some (Artefacts.marlin_randomness f)
     else if starts "proof" then Some (Artefacts.kzg_proof g1 f)
@@ -584,6 +586,7 @@ let schema_for scheme (name : string) (g1, g2, f) : Codec.schema option =
     if name = "pp" then Some (Artefacts.kzg_universal_params g1 g2)
     else if name = "ck" then Some (Artefacts.sonic_ck g1)
     else if name = "vk" then Some (Artefacts.sonic_vk g1 g2)
+    else if name = "kzgpowers" then Some (Artefacts.kzg_powers g1)
     else if starts "comm" then Some (Artefacts.kzg_commitment g1)
     else if starts "state" then Some (Artefacts.kzg_randomness f)
     else if starts "proof" then Some (Artefacts.kzg_proof g1 f)
@@ -621,11 +624,17 @@ let schema_for scheme (name : string) (g1, g2, f) : Codec.schema option =
     else if starts "proof" then Some (Artefacts.lincode_proof_list f)
     else if starts "bproof" then Some (Artefacts.lincode_batch_proof f)
     else if starts "lcproof" then lc (Artefacts.lincode_batch_proof f) else None
+  | "mlpc" ->
+    if name = "pp" then Some (Artefacts.mlpc_params g1 g2)
+    else if name = "ck" then Some (Artefacts.mlpc_ck g1 g2)
+    else if name = "vk" then Some (Artefacts.mlpc_vk g1 g2)
+    else if starts "comm" then Some (Artefacts.mlpc_commitment g1)
+    else if starts "proof" then Some (Artefacts.mlpc_proof g2) else None
   | _ -> None
 
 let run_c12 c =
-  let scheme = str1 c "scheme" in
-  let pairing = List.mem scheme [ "marlin"; "sonic"; "pst13"; "ligero_uni"; "ligero_ml"; "brakedown_ml" ] in
+  let scheme = if has c "scheme" then str1 c "scheme" else "mlpc" in
+  let pairing = List.mem scheme [ "marlin"; "sonic"; "pst13"; "ligero_uni"; "ligero_ml"; "brakedown_ml"; "mlpc" ] in
   Hashtbl.iter (fun key v ->
       (* key = ser.<name>.<c|u> *)
       match String.split_on_char '.' key with
@@ -2812,7 +2821,7 @@ let () =
           | "c08" -> run_c08 c
           | "c09" -> run_c09 c
           | "c15" -> run_c15 c
-          | "mlpc" -> run_mlpc c
+          | "mlpc" -> run_mlpc c; if has c "c12" then run_c12 c
           | "c14" -> run_c14 c
           | _ -> () (* not modelled: the library run is judged by the implementation-level oracle only *))
        with e -> obs1 "runner_exception" "S" (String.map (fun ch -> if ch = ' ' then '_' else ch) (Printexc.to_string e)));
